@@ -158,3 +158,23 @@ claim("C02",
       "Identity/Privilege is tested against its paired claim; dangling names never reach the flattened assignments.",
       "Trusts rustc MIR + extractor; prefix semantics, query parsing and everything outside these shapes are not decided.",
       "DESIGN.md §5 C02")
+
+claim("C18",
+      "sanitiser coverage over format arguments + escaper table + guard shapes (dominance) of batching and cleanup",
+      "Decides: every string parameter of the telemetry XML is the direct result of xml_escape (integers exempt); xml_escape replaces "
+      "& ' \" < > with & first (so no CDATA terminator or raw markup can come from event text); after each add_event the 64 KiB size test "
+      "lies on every path to the upload, its overflow edge removes the last event, the put-back happens only for a non-empty batch and an "
+      "event that alone overflows is dropped; every iteration over event files reaches clean_files on all paths; single uploader with a "
+      "constant retry bound. XML well-formedness for every text, termination and host-side duplicates are not decided.",
+      "Trusts str::replace / format! semantics, rustc MIR + extractor.",
+      "DESIGN.md §5 C18")
+
+claim("C19",
+      "guards-before-writes dominance + deletion-loop provenance (sorted listing, cap test) + constant provenance of limits",
+      "Decides only necessary conditions (the numeric file-count/size bounds over histories are NOT decided): every rolling-logger write is "
+      "dominated by roll_if_needed, which archives exactly on len >= max size; deletions in archive_file and in the rule-dump writer take "
+      "entries of the ascending-sorted listing and are guarded by count >= cap; the rule-dump deletion precedes the new write; on the "
+      "event-file cap edge nothing is written in that iteration and the counted directory is the written one; loggers and the dump writer "
+      "are configured from MAX_LOG_FILE_SIZE / MAX_LOG_FILE_COUNT.",
+      "Trusts rustc MIR + extractor; off-by-one arithmetic of the deletion loops and restart behaviour are not decided.",
+      "DESIGN.md §5 C19")
